@@ -588,14 +588,29 @@ func c08(c *ctx) {
 			continue
 		}
 		okCmp := false
-		for _, a := range f.AnonFuncs {
-			instrs(a, func(in ssa.Instruction) {
-				if cc := callCommon(in); cc != nil && strings.HasSuffix(calleeName(cc), ".cmp") {
-					if strings.HasSuffix(c.p.path(cc.Args[0]), ".Key") && strings.HasSuffix(c.p.path(cc.Args[1]), ".Key") {
-						okCmp = true
+		// the comparator literal sits in the function itself, in a transparent helper, or in a helper that sorts its parameter
+		var cands []*ssa.Function
+		for _, g := range bodyFuncs(f, true) {
+			cands = append(cands, g)
+			for _, cs := range allCalls(g) {
+				if sc := cs.Common().StaticCallee(); sc != nil && inCanopyRaw(sc) && sorterParam(c.p, sc, 0) >= 0 {
+					cands = append(cands, withAnons(origin(sc))...)
+				}
+			}
+		}
+		for _, a := range cands {
+			if a.Parent() == nil {
+				continue // comparators are function literals
+			}
+			for _, blk := range a.Blocks {
+				for _, in := range blk.Instrs {
+					if cc := callCommon(in); cc != nil && strings.HasSuffix(calleeName(cc), ".cmp") && len(cc.Args) >= 2 {
+						if strings.HasSuffix(c.p.path(cc.Args[0]), ".Key") && strings.HasSuffix(c.p.path(cc.Args[1]), ".Key") {
+							okCmp = true
+						}
 					}
 				}
-			})
+			}
 		}
 		r.Check(okCmp, "R1/"+fnName(f)+"/comparator", c.p.Pos(f.Pos()), "sorted by node key (key.cmp)", fnName(f)+" no longer sorts the operations by their tree key: the commit order would follow Go's map order")
 	}
